@@ -131,3 +131,102 @@ theorem TInv.init (pfx : String) (s : Space) : TInv pfx s s [] :=
   ⟨fun _ h => Or.inl h, fun _ h => Or.inl h, by intro p hp; cases hp⟩
 
 end Inline
+
+namespace Inline
+
+theorem prefixed_iff (p x : String) : prefixed p x = true ↔ p.toList <+: x.toList := by
+  unfold prefixed; exact List.isPrefixOf_iff_prefix
+
+/-- two incomparable strings: no extension of the one starts with the other -/
+theorem incomp_append (p q r : String) (h : incomp p q = true) : prefixed p (q ++ r) = false := by
+  cases hp : prefixed p (q ++ r) with
+  | false => rfl
+  | true =>
+    exfalso
+    simp only [incomp, Bool.and_eq_true, Bool.not_eq_true', ] at h
+    have h1 := (prefixed_iff _ _).mp hp
+    rw [String.toList_append] at h1
+    rcases List.prefix_or_prefix_of_prefix h1 (List.prefix_append q.toList r.toList) with h2 | h2
+    · have := (prefixed_iff p q).mpr h2; rw [h.1] at this; cases this
+    · have := (prefixed_iff q p).mpr h2; rw [h.2] at this; cases this
+
+/-- a prefix of a string that does not start with `p` does not start with `p` either -/
+theorem not_prefixed_of_append (p b r : String) (h : prefixed p (b ++ r) = false) :
+    prefixed p b = false := by
+  cases hb : prefixed p b with
+  | false => rfl
+  | true =>
+    have h1 := (prefixed_iff _ _).mp hb
+    have : p.toList <+: (b ++ r).toList := by
+      rw [String.toList_append]; exact h1.trans (List.prefix_append _ _)
+    rw [(prefixed_iff _ _).mpr this] at h; cases h
+
+/-- **the naming facts and the decidable condition on the names give prefix-freeness** -/
+theorem safe_prefixFree (d : NameData) (k : String) (var node : Space)
+    (hf : NameFacts d var node) (hs : d.safe k = true) :
+    var.prefixFree k = true ∧ node.prefixFree k = true := by
+  simp only [NameData.safe, Bool.and_eq_true, List.all_eq_true] at hs
+  obtain ⟨⟨⟨hu, hb⟩, hi⟩, hn⟩ := hs
+  have hinl : ∀ k' ∈ d.inlines, ∀ r, prefixed (k ++ "__") (k' ++ "__" ++ r) = false :=
+    fun k' hk r => incomp_append _ _ _ (hi k' hk)
+  have hbase : ∀ b ∈ d.varBases, prefixed (k ++ "__") b = false ∧
+      ∀ r, prefixed (k ++ "__") (b ++ "_" ++ r) = false := by
+    intro b hbm
+    have h0 := incomp_append (k ++ "__") (b ++ "_") "" (hb b hbm)
+    refine ⟨not_prefixed_of_append _ b "_" ?_, fun r => incomp_append _ _ _ (hb b hbm)⟩
+    simpa using h0
+  constructor
+  · simp only [Space.prefixFree, Bool.and_eq_true, List.all_eq_true]
+    constructor
+    · intro x hx
+      rcases hf.varUsed x hx with h | ⟨b, hbm, h | ⟨r, h⟩⟩ | ⟨k', hk, r, h⟩
+      · exact hu x h
+      · rw [h, (hbase b hbm).1]; rfl
+      · rw [h, (hbase b hbm).2 r]; rfl
+      · rw [h, hinl k' hk r]; rfl
+    · intro c hc
+      rcases hf.varCtr c hc with h | ⟨k', hk, r, h⟩
+      · rw [(hbase c.1 h).1]; rfl
+      · rw [h, hinl k' hk r]; rfl
+  · simp only [Space.prefixFree, Bool.and_eq_true, List.all_eq_true]
+    constructor
+    · intro x hx
+      rcases hf.nodeUsed x hx with h | ⟨k', hk, r, h⟩
+      · exact hn x h
+      · rw [h, hinl k' hk r]; rfl
+    · intro c hc
+      rcases hf.nodeCtr c hc with h | ⟨k', hk, r, h⟩
+      · exact hn c.1 h
+      · rw [h, hinl k' hk r]; rfl
+
+end Inline
+
+namespace Inline
+
+/-- the Inline node's own generated value names `K_outputs_i[_c]` never fall into its `K__` family -/
+theorem own_outputs_incomp (k r : String) : incomp (k ++ "__") (k ++ "_o" ++ r) = true := by
+  have h1 : prefixed (k ++ "__") (k ++ "_o" ++ r) = false := by
+    cases h : prefixed (k ++ "__") (k ++ "_o" ++ r) with
+    | false => rfl
+    | true =>
+      have := (prefixed_iff _ _).mp h
+      simp only [String.toList_append, List.append_assoc] at this
+      rw [List.prefix_append_right_inj] at this
+      have e1 : ("__" : String).toList = ['_', '_'] := by decide
+      have e2 : ("_o" : String).toList = ['_', 'o'] := by decide
+      rw [e1, e2] at this
+      simp at this
+  have h2 : prefixed (k ++ "_o" ++ r) (k ++ "__") = false := by
+    cases h : prefixed (k ++ "_o" ++ r) (k ++ "__") with
+    | false => rfl
+    | true =>
+      have := (prefixed_iff _ _).mp h
+      simp only [String.toList_append, List.append_assoc] at this
+      rw [List.prefix_append_right_inj] at this
+      have e1 : ("__" : String).toList = ['_', '_'] := by decide
+      have e2 : ("_o" : String).toList = ['_', 'o'] := by decide
+      rw [e1, e2] at this
+      simp at this
+  simp [incomp, h1, h2]
+
+end Inline
